@@ -194,6 +194,13 @@ def shrink_c09(scn, viol, test):
                 c["worlds"][wi][knob] = default
                 if test(c):
                     scn = c
+    # 6b. environment variables one by one
+    for wi in range(len(scn["worlds"])):
+        for name in sorted(((scn["worlds"][wi].get("env") or {}).get("vars") or {})):
+            c = copy.deepcopy(scn)
+            del c["worlds"][wi]["env"]["vars"][name]
+            if test(c):
+                scn = c
     # 7. second pass over ops (earlier passes may have made some redundant), drop idle worlds
     for wi in range(len(scn["worlds"])):
         ops = scn["worlds"][wi]["ops"]
